@@ -70,6 +70,7 @@ def complex_pass(rng, tier):
 def run(rng, tier, want=('C01', 'C10', 'C11', 'C12', 'C13', 'C14')):
     a = native.algopy(); U = a.UTPM
     DPs = [(1, 1), (3, 2)] if tier == 'quick' else [(1, 1), (2, 3), (4, 2), (6, 1)]
+    if tuple(want) == ('C12',): DPs = DPs + [(12, 2)]          # long series: fast paths keyed on the number of coefficients (FFT products, blocked loops)
     for op in optable.table():
         if op.only is not None and not (set(op.only) & set(want)): continue
         shape_sets = [tuple(op.shapes)] if (op.nin == 2 and op.kind == 'linalg') else [tuple([s] * op.nin) for s in op.shapes]
@@ -151,7 +152,7 @@ def run(rng, tier, want=('C01', 'C10', 'C11', 'C12', 'C13', 'C14')):
                 # ---- C12 degree independence
                 if 'C12' in want and D > 1:
                     fail = None
-                    for Dp in range(1, D):
+                    for Dp in (range(1, D) if D <= 8 else (1, 2, 5, 9, D - 1)):
                         r1, _ = _call(op, [x[:Dp] for x in arrs])
                         if not numpy.allclose(r.data[:Dp], r1.data, rtol=1e-10, atol=1e-10 * scale): fail = 'coefficients < %d change when computed with D=%d instead of D=%d' % (Dp, D, Dp); break
                     yield 'C12', op.name, case, fail
